@@ -1,4 +1,5 @@
 import ObiVerif.Model.SeqOps
+import ObiVerif.Lemmas.SeqOps
 /-!
 # C07 — reverse complement, subsequence and copy obey their algebraic laws (property theorems)
 
@@ -51,5 +52,90 @@ theorem rc_closed (s : Bytes) (h : ∀ b ∈ s, b ∈ alphabet) : ∀ b ∈ rc s
 /-- the coordinate transform of position-bearing annotations under reverse complement is an involution -/
 theorem revcmpPos_involutive (l p : Int) : revcmpPos l (revcmpPos l p) = p := by
   unfold revcmpPos; omega
+
+/-! ## No shared state: an operation only changes its target -/
+
+/-- frame property: an operation leaves every object other than its target unchanged -/
+theorem applyOp_frame {st st' : Store} {op : Op} {m : String}
+    (h : applyOp st op = .ok st') (hm : m ≠ op.target) : st'.get m = st.get m := by
+  cases op with
+  | new a s q =>
+    simp only [applyOp, Except.ok.injEq] at h
+    subst h; exact Store.get_put_ne _ _ _ _ hm
+  | copy a b =>
+    simp only [applyOp] at h
+    cases hg : st.get a with
+    | none => simp [hg, optE, bind, Except.bind] at h
+    | some o =>
+      simp only [hg, optE, bind, Except.bind, pure, Except.pure, Except.ok.injEq] at h
+      subst h; exact Store.get_put_ne _ _ _ _ hm
+  | rc a b =>
+    simp only [applyOp] at h
+    cases hg : st.get a with
+    | none => simp [hg, optE, bind, Except.bind] at h
+    | some o =>
+      simp only [hg, optE, bind, Except.bind, pure, Except.pure, Except.ok.injEq] at h
+      subst h; exact Store.get_put_ne _ _ _ _ hm
+  | rci a =>
+    simp only [applyOp] at h
+    cases hg : st.get a with
+    | none => simp [hg, optE, bind, Except.bind] at h
+    | some o =>
+      simp only [hg, optE, bind, Except.bind, pure, Except.pure, Except.ok.injEq] at h
+      subst h; exact Store.get_put_ne _ _ _ _ hm
+  | sub a b f t c =>
+    simp only [applyOp] at h
+    cases hg : st.get a with
+    | none => simp [hg, optE, bind, Except.bind] at h
+    | some o =>
+      simp only [hg, optE, bind, Except.bind, pure, Except.pure] at h
+      split at h
+      · simp only [Except.ok.injEq] at h
+        subst h; exact Store.get_put_ne _ _ _ _ hm
+      · cases h
+      · simp only [Except.ok.injEq] at h
+        subst h; rfl
+  | set a p v =>
+    simp only [applyOp] at h
+    cases hg : st.get a with
+    | none => simp [hg, optE, bind, Except.bind] at h
+    | some o =>
+      simp only [hg, optE, bind, Except.bind, pure, Except.pure, Except.ok.injEq] at h
+      subst h; exact Store.get_put_ne _ _ _ _ hm
+  | recycle a =>
+    simp only [applyOp] at h
+    cases hg : st.get a with
+    | none => simp [hg, optE, bind, Except.bind] at h
+    | some o =>
+      simp only [hg, optE, bind, Except.bind, pure, Except.pure, Except.ok.injEq] at h
+      subst h; exact Store.get_put_ne _ _ _ _ hm
+
+/-- no aliasing along a whole history: an object that no operation of the history targets is
+unchanged at the end (modifying or recycling one object never changes another) -/
+theorem no_alias (ops : List Op) (st st' : Store) (m : String)
+    (h : ops.foldlM applyOp st = .ok st') (hm : ∀ op ∈ ops, m ≠ op.target) :
+    st'.get m = st.get m := by
+  induction ops generalizing st with
+  | nil =>
+    simp only [List.foldlM_nil, pure, Except.pure, Except.ok.injEq] at h
+    subst h; rfl
+  | cons op t ih =>
+    simp only [List.foldlM_cons, bind, Except.bind] at h
+    cases h1 : applyOp st op with
+    | error e => simp [h1] at h
+    | ok st1 =>
+      simp only [h1] at h
+      rw [ih st1 h (fun o ho => hm o (List.mem_cons_of_mem _ ho))]
+      exact applyOp_frame h1 (hm op (by simp))
+
+/-- non-vacuity: a history that copies `x` to `y`, reverse-complements `y` in place, cuts `z` out of
+`y`, mutates and recycles `y` succeeds, and `x` is untouched -/
+example :
+    let st0 : Store := [("x", ⟨[97, 99, 103, 116], some [1, 2, 3, 4]⟩)]
+    let ops := [Op.copy "x" "y", Op.rci "y", Op.sub "y" "z" 1 3 false, Op.set "y" 0 110, Op.recycle "y"]
+    ∃ st', ops.foldlM applyOp st0 = .ok st' ∧ st'.get "x" = st0.get "x" ∧
+      (st'.get "y").map (·.seq) = some [] ∧ (st'.get "z").map (·.seq) = some [99, 103] := by
+  intro st0 ops
+  refine ⟨_, rfl, no_alias ops st0 _ "x" rfl (by decide), ?_, ?_⟩ <;> decide
 
 end ObiVerif.Props.C07
